@@ -228,7 +228,8 @@ def compare(case, ir, mr):
     if 'error' in mr:
         return ['model rejects with %s but make_slp succeeds' % mr['error']]
     nS = len(ir['c_samples'])
-    tolc = 0 if (nS + 1) in (1, 2, 4, 8) else 1e-12
+    # exact unless the implementation divides by a non power of two or sums sample costs of straddling variables in floating point
+    tolc = 0 if ((nS + 1) in (1, 2, 4, 8) and not any(mr.get('straddle', []))) else 1e-12
     m, i = mr['problem'], ir['slp']
     d = pf.cmp_vec('slp.c', m['c'], i['c'], tolc)
     if d:
@@ -380,9 +381,17 @@ def oracle(case, ir, drv=None, max_k=3):
         return viol, obs
     V_slp = float(res_slp.value)
     obs['V_slp'] = V_slp
-    # ---- value of the SLP point recomputed from its parts (present + mean of futures)
+    # ---- value of the SLP point recomputed from its parts (slp_structure): non-straddling present variables with the problem's own
+    #      cost, straddling present variables (present, but with a mapping row at a future step; since commit 20639b0) and future
+    #      variables with the cost of the scenario, mean over the scenarios
+    fut_steps0 = set(int(t) for t in tg.I[first_f:]) if first_f < tg.T else set()
+    strad0 = np.zeros(n, dtype=bool)
+    for j in set(int(i) for i in op.mapping.index[op.mapping['time_step'].isin(list(fut_steps0))]):
+        if 0 <= j < n and not mask[j]:
+            strad0[j] = True
+    cs_struct = [op.c.copy()] + [np.where(mask | strad0, c, op.c) for c in ir['c_samples']]
     xs = [res_slp.x[embed(mask, n, s)] for s in range(nS + 1)]
-    recomb = float(np.mean([-np.dot(c, x) for c, x in zip(cs, xs)]))
+    recomb = float(np.mean([-np.dot(c, x) for c, x in zip(cs_struct, xs)]))
     if abs(recomb - V_slp) > tol:
         viol.append({'oracle': 'slp_value_mean', 'detail': 'SLP value %.8g but mean over scenarios of the recombined values is %.8g' % (V_slp, recomb), 'facts': {'kind': 'value_mean'}})
     for s, x in enumerate(xs):
